@@ -371,6 +371,17 @@ def run(chk, scratch):
                     h = hidden_by_chain.get((t["chr"], tuple(introns)))
                     if h is not None:
                         evidence["polyA-of-source-reads"] = h.strand
+                    # per-intron vote: an intron annotated on ONE strand votes for it, any other intron votes by its reference dinucleotides
+                    votes = {"+": 0, "-": 0}
+                    for i in introns:
+                        a_ = annotated_intron_strand.get((t["chr"], i), set())
+                        v_ = list(a_)[0] if len(a_) == 1 else site_strand(w, t["chr"], [i])
+                        if v_ in votes:
+                            votes[v_] += 1
+                    if votes["+"] != votes["-"] and t["strand"] in ("+", "-") and t["strand"] != ("+" if votes["+"] > votes["-"] else "-"):
+                        chk.violation("novel-model-strand-contradicts-intron-majority",
+                                      "%s: %s reported on %s, its introns vote %s (annotated strand where annotated on one strand, reference dinucleotides otherwise)" %
+                                      (desc, tid, t["strand"], votes), wit)
                     chk.count("novel_model_strands_judged")
                     if h is not None and h.kind == "contested-intron-novel":
                         chk.count("novel_models_over_an_intron_annotated_on_both_strands")
